@@ -452,14 +452,42 @@ struct TagStream {
     keep_tags: bool,
 }
 
+/// A suffix containing the percent-encoding of a random code point (1-4 byte UTF-8 sequences).
+fn random_escaped_suffix(r: &mut Rng) -> String {
+    let cp = match r.below(6) {
+        0 => r.range(0x21, 0x7e) as u32,
+        1 => r.range(0x80, 0x7ff) as u32,
+        2 => r.range(0x800, 0xd7ff) as u32,
+        3 => r.range(0xe000, 0xfffd) as u32,
+        4 => r.range(0x10000, 0x10ffff) as u32,
+        _ => r.pick(&[0x434u32, 0x5d0, 0x627, 0xac00, 0xffe5, 0x10ffff, 0x7ff, 0x800, 0xffff, 0x10000]),
+    };
+    let ch = char::from_u32(cp).unwrap_or('x');
+    let mut buf = [0u8; 4];
+    let mut s = String::from("e");
+    for b in ch.encode_utf8(&mut buf).bytes() {
+        s.push_str(&if r.chance(1, 2) { format!("%{b:02X}") } else { format!("%{b:02x}") });
+    }
+    s.push('z');
+    s
+}
+
+fn pick_suffix(r: &mut Rng) -> String {
+    if r.chance(1, 3) {
+        random_escaped_suffix(r)
+    } else {
+        r.pick(SUFFIXES).to_string()
+    }
+}
+
 fn gen_tag(r: &mut Rng, declared: &[(String, String)]) -> ATag {
     let named: Vec<&(String, String)> = declared.iter().filter(|(h, _)| h.len() > 2).collect();
     match r.below(8) {
-        0 | 1 if !named.is_empty() => ATag::Named(named[r.below(named.len())].0.clone(), r.pick(SUFFIXES).to_string()),
-        2 => ATag::Secondary(r.pick(SUFFIXES).to_string()),
+        0 | 1 if !named.is_empty() => ATag::Named(named[r.below(named.len())].0.clone(), pick_suffix(r)),
+        2 => ATag::Secondary(pick_suffix(r)),
         3 => ATag::Verbatim(r.pick(&["tag:example.com,2000:app/x", "!local", "tag:yaml.org,2002:str", "a%20b", "x:%C3%A9"]).to_string()),
         4 => ATag::NonSpecific,
-        _ => ATag::Local(r.pick(SUFFIXES).to_string()),
+        _ => ATag::Local(pick_suffix(r)),
     }
 }
 
@@ -760,6 +788,11 @@ const STATEFUL: &[&str] = &[
     "%YAML 1.2\n--- a\n",
     "&a x\n",
     "- &a [x]\n- *a\n",
+    "&b [*b]\n",
+    "&a {k: *a}\n",
+    "&a\n- &b [*a, *b]\n- *b\n",
+    "&x leaked\n",
+    "- &p 1\n- &q 2\n- &r 3\n",
     "k: |+\n  text\n\n\n",
     "k: >-\n  folded\n  text\n",
     "? a\n: b\n",
